@@ -56,7 +56,17 @@ def pred_gcc_zero_capacity(prop, w):
 def pred_affine_eq_skip_self(prop, w):
     """The constraint that still prunes after the pass is affine_eq, it was the last one executed in that pass and
     its bit is still set in the queue - the signature of pop_propagator's 'skip the previous propagator' rule."""
-    return w.get("constraint") == "affine_eq" and bool(w.get("queued")) and bool(w.get("last"))
+    if w.get("constraint") != "affine_eq":
+        return False
+    if bool(w.get("queued")) and bool(w.get("last")):
+        return True
+    # consequence of the same mechanism: the queue bit left by the skip was consumed below a choice point and the
+    # re-run is still owed after backtracking to it (the queue is not saved with the choice point)
+    if w.get("owed") and not w.get("queued"):
+        return True
+    # plane B (compiled probe) cannot tell 'owed' from 'never woken': it only names the constraint type; the
+    # interpreted fixpoint monitor decides the same models with the full signature
+    return w.get("plane") == "B" and w.get("kind") == "not_a_fixpoint" and bool(w.get("affine_eq_only"))
 
 
 PREDICATES = {
